@@ -224,3 +224,78 @@ func VerifH_C09_MultiSearch() {
 	rt.Cover(rt.And(len(shards[0].docs) == 0, len(sr.Hits) >= 2), "empty-shard")
 	rt.Cover(rt.And(mode == 2, len(sr.Hits) >= 2), "search-before-page")
 }
+
+// VerifH_C09_ChildRequest: what every shard is asked is the caller's request (query, sort with every
+// option, facets, fields, flags, paging keys) with only From/Size rewritten; symbolic sort options.
+func VerifH_C09_ChildRequest() {
+	shards := []*verifShard{{name: "s0", docs: []int{0, 2}}, {name: "s1", docs: []int{1, 3}}}
+	shards[1].gate = make(chan struct{})
+	shards[0].next = shards[1].gate
+	size := rt.Choice("size", 2) + 1
+	from := rt.Choice("from", 2)
+	mode := rt.Choice("mode", 3)
+	req := NewSearchRequestOptions(NewMatchAllQuery(), size, from, rt.Bool("explain"))
+	sf := &search.SortField{Field: "f", Desc: rt.Bool("desc"), Type: search.SortFieldType(rt.U8("type")), Mode: search.SortFieldMode(rt.U8("mode_")), Missing: search.SortFieldMissing(rt.U8("missing"))}
+	rt.Assume(rt.And(sf.Type >= 0, sf.Type <= search.SortFieldAsDate, sf.Mode >= 0, sf.Mode <= search.SortFieldMax, sf.Missing >= 0, sf.Missing <= search.SortFieldMissingFirst))
+	sd := &search.SortDocID{Desc: rt.Bool("id_desc")}
+	ss := &search.SortScore{Desc: rt.Bool("score_desc")}
+	req.SortByCustom(search.SortOrder{sf, ss, sd})
+	req.IncludeLocations = rt.Bool("locations")
+	req.Fields = []string{"f", "g"}
+	req.Score = []string{"", "none"}[rt.Choice("score", 2)]
+	req.AddFacet("byg", NewFacetRequest("g", 2))
+	pivot := []string{verifCorpusKeys[1], "1", verifCorpusIDs[1]}
+	switch mode {
+	case 1:
+		req.From, from = 0, 0
+		req.SearchAfter = pivot
+	case 2:
+		req.From, from = 0, 0
+		req.SearchBefore = pivot
+	}
+	want := *sf
+	wantSD, wantSS := *sd, *ss
+	_, err := MultiSearch(context.Background(), req, nil, shards[0], shards[1])
+	rt.Assert(err == nil, "MultiSearch succeeds")
+	for _, s := range shards {
+		rt.Assert(len(s.reqs) == 1, "every shard is asked once")
+		for _, cr := range s.reqs {
+			rt.Assert(rt.And(cr.From == 0, cr.Size == size+from), "child requests ask for From+Size hits from the start")
+			rt.Assert(rt.And(cr.Explain == req.Explain, cr.IncludeLocations == req.IncludeLocations, cr.Score == req.Score, len(cr.Fields) == 2, cr.Query == req.Query), "child request carries the caller's query, fields and flags")
+			rt.Assert(rt.And(len(cr.Facets) == 1, cr.Facets["byg"] == req.Facets["byg"]), "child request carries the facet requests")
+			rt.Assert(len(cr.Sort) == 3, "child request carries every sort key")
+			if len(cr.Sort) != 3 {
+				continue
+			}
+			csf, ok1 := cr.Sort[0].(*search.SortField)
+			css, ok2 := cr.Sort[1].(*search.SortScore)
+			csd, ok3 := cr.Sort[2].(*search.SortDocID)
+			rt.Assert(ok1 && ok2 && ok3, "child sort keys have the caller's kinds, in order")
+			if !(ok1 && ok2 && ok3) {
+				continue
+			}
+			// with SearchBefore the request is executed reversed (and the shards are asked in that form)
+			exp, expSD, expSS := want, wantSD, wantSS
+			if mode == 2 {
+				exp.Reverse()
+				expSD.Reverse()
+				expSS.Reverse()
+			}
+			rt.Assert(rt.And(csf.Field == exp.Field, csf.Desc == exp.Desc, csf.Type == exp.Type, csf.Mode == exp.Mode, csf.Missing == exp.Missing),
+				"child field sort has the caller's field, direction, type, mode and missing policy")
+			rt.Assert(rt.And(csd.Desc == expSD.Desc, css.Desc == expSS.Desc), "child id/score sorts have the caller's direction")
+			switch mode {
+			case 0:
+				rt.Assert(rt.And(cr.SearchAfter == nil, cr.SearchBefore == nil), "no paging key invented")
+			case 1:
+				rt.Assert(rt.And(len(cr.SearchAfter) == 3, cr.SearchBefore == nil), "search-after key passed on")
+			case 2:
+				rt.Assert(rt.And(len(cr.SearchAfter) == 3, cr.SearchBefore == nil), "search-before executed as search-after on the reversed sort")
+			}
+		}
+	}
+	rt.Assert(rt.And(sf.Desc == want.Desc, sf.Type == want.Type, sf.Mode == want.Mode, sf.Missing == want.Missing, sd.Desc == wantSD.Desc, ss.Desc == wantSS.Desc),
+		"the caller's sort is as it was after the search")
+	rt.Cover(rt.And(mode == 2, sf.Missing == search.SortFieldMissingFirst), "search-before-missing-first")
+	rt.Cover(rt.And(mode == 0, sf.Missing == search.SortFieldMissingFirst, sf.Desc), "missing-first-desc")
+}
